@@ -59,7 +59,37 @@ def gen(rng, max_len=8, p=None, small=False):
             pair = [Mod(k, rng.choice([1, 2])), Mod(float(k), 3)]
             rng.shuffle(pair)
             l.extend(pair)
+    r = rng.random()
+    if r < 0.12:
+        a._charge = 0                      # an explicit charge of 0 is set, not absent (written /0)
+    if rng.random() < 0.1:
+        # set-but-empty containers (reachable by emptying a list by hand or add_*_mods([])): [] is not None
+        which = rng.choice(['field', 'internal', 'interval', 'intervals'])
+        if which == 'field':
+            f = rng.choice(['_labile_mods', '_static_mods', '_isotope_mods', '_cterm_mods', '_charge_adducts', '_unknown_mods',
+                            '_nterm_mods'])
+            if getattr(a, f) is None:
+                setattr(a, f, [])
+        elif which == 'internal':
+            k = rng.randrange(len(a))
+            if a._internal_mods is None:
+                a._internal_mods = {}
+            if k not in a._internal_mods:
+                a._internal_mods[k] = []
+        elif which == 'interval' and a._intervals:
+            iv = rng.choice(a._intervals)
+            if iv.mods is None:
+                iv.mods = []
+        elif a._intervals is None:
+            a._intervals = []
+            a._has_empty = True
     return a
+
+
+def has_empty(a):
+    """a container that is set but empty ([] / {} rather than None): such an annotation has no faithful text"""
+    return any(getattr(a, f) == [] for f in LIST_FIELDS) or a._intervals == [] or a._internal_mods == {} or \
+        any(iv.mods == [] for iv in (a._intervals or [])) or any(v == [] for v in (a._internal_mods or {}).values())
 
 
 def mod_lists(a):
@@ -117,6 +147,8 @@ def perturb(a, kind, rng):
             return None
         k2 = rng.choice(free)
         l = b._internal_mods[k]
+        if not l:
+            return None
         if rng.random() < 0.5 or len(l) == 1:
             moved = b._internal_mods.pop(k)
         else:
@@ -760,7 +792,11 @@ def run(chk):
                    compare=lambda im, m: im == annot.canon_dump(m), nontrivial_fn=lambda kw, im: len(kw) > 2)
 
     # ------------------------------------------------------------------ text-exact: the str-level wrappers of sequence_funcs
-    texts = [a.serialize(include_plus=(i % 2 == 1)) for i, a in enumerate(anns)]
+    texts = [a.serialize(include_plus=(i % 2 == 1)) for i, a in enumerate(anns) if not has_empty(a)]
+    # falsy-but-set values at string level: charge 0, numeric mod values 0 / 0.0 / -0.0 everywhere, interval from residue 0
+    FALSY = ['PEP[Phospho]TIDE/0', 'PEPTIDE/0', 'PEP[0]TIDE', 'P[0.0]EP', 'P[-0.0]^2EP/0', '(PE)[0]P', '(?PE)P/0', '[0]-PEP-[0.0]',
+             '{0}PEP', '{0.0}^2[0]?PEP/0', '[0]?[0.0]-P[0]EP[0]-[0]/0', '<13C>PEP/0[+H+]', 'P[0][0.0][-0.0]EP', '(P)[0.0]EP/-0']
+    texts = FALSY + texts
     texts += ['PEPTIDE', '[Acetyl]-PEPTIDE[1.234]-[Amide]', '<13C><[+1.234]@P>PEP', '{Glycan:Hex}PEP', '[Phospho]^3?PEPTIDE',
               'PEP(TI)[Phospho]DE', 'PEPTIDE/+2[+2Na+,-H+]', 'PEP+TIDE', 'PEP//TIDE', 'PE[', '', 'PEP[+1.0][+1]^2TIDE',
               '(?DQ)NGTWEM[Oxidation]ESNENFEGYM[Oxidation]K', 'PEP[Formula:[13C]H12]TIDE', 'pep', 'PEP/0']
@@ -836,10 +872,29 @@ def run(chk):
         d0 = annot.dump(a)
         s0 = a.serialize()
         # annotation level
+        # what the dictionary must contain, read from the fields: every field that is SET (is not None - 0 and [] are set),
+        # internal mods under their indices
+        exp = {k: getattr(a, f) for f, k in DICT_KEY.items() if getattr(a, f) is not None}
+        if a._intervals is not None:
+            exp['intervals'] = a._intervals
+        if a._charge is not None:
+            exp['charge'] = a._charge
+        exp.update(a._internal_mods or {})
+        for name, got in (('mod_dict()', a.mod_dict()), ('get_mods()', pt.get_mods(a)), ('pop_mods()[1]', pt.pop_mods(a)[1])):
+            if show_dict(got) != show_dict(exp):
+                return f'{name} is {show_dict(got)}, the fields say {show_dict(exp)}'
         b = a.strip()
         b.add_mod_dict(a.mod_dict())
         if annot.dump(b) != d0:
-            return f'add_mod_dict(strip, mod_dict) gives {annot.dump(b)}'
+            return f'add_mod_dict(strip, mod_dict) gives {annot.dump(b)}, source {d0}'
+        for f in LIST_FIELDS + ['_charge', '_sequence']:
+            if repr(getattr(b, f)) != repr(getattr(a, f)):
+                return f'field {f} is {getattr(b, f)!r} after strip + add_mod_dict(mod_dict), source has {getattr(a, f)!r}'
+        for app in (True, False):
+            b2 = a.strip()
+            b2.add_mod_dict(a.mod_dict(), append=app)
+            if b2.serialize() != s0 or annot.dump(b2) != d0:
+                return f'strip + add_mod_dict(mod_dict, append={app}) writes {b2.serialize()!r}, source {s0!r}'
         if not (b == a):
             return 'rebuilt annotation is not == the source'
         # string level, both wrappers, default append and replace
@@ -858,8 +913,8 @@ def run(chk):
         s = pt.add_mods(pp.ProFormaAnnotation(_sequence=seq), md)
         if s != s0:
             return f'add_mods(annotation, pop_mods(string)) gives {s!r}, original {s0!r}'
-        # through the string form as well
-        if pt.add_mods(pt.strip_mods(s0), pt.get_mods(s0)) != s0:
+        # through the string form as well (a set-but-empty container has no text of its own)
+        if not has_empty(a) and pt.add_mods(pt.strip_mods(s0), pt.get_mods(s0)) != s0:
             return f'string round trip gives {pt.add_mods(pt.strip_mods(s0), pt.get_mods(s0))!r}, original {s0!r}'
         if annot.dump(a) != d0:
             return 'get_mods/pop_mods/strip_mods changed their argument'
@@ -927,7 +982,7 @@ def run(chk):
         c = a.copy()
         if c.strip(inplace=True) is not None or annot.dump(c) != want:
             return f'strip(inplace=True) gives {annot.dump(c)}'
-        if pt.strip_mods(a) != a._sequence or pt.strip_mods(a.serialize()) != a._sequence:
+        if pt.strip_mods(a) != a._sequence or (not has_empty(a) and pt.strip_mods(a.serialize()) != a._sequence):
             return 'strip_mods is not the bare sequence'
         return None
 
